@@ -550,7 +550,7 @@ def sweep_reset(ctx, paths_file, kind, to, max_states, suffix=8):
         else:
             fixed = [[176 + ch, 99, 3], [176 + ch, 98, 37], [176 + ch, 6, 100], [176 + ch, 38, 24], [176 + ch, 96, 1],
                      [176 + ch, 101, 3], [176 + ch, 100, 36], [176 + ch, 38, 7], [176 + ch, 6, 8]]
-        if ctx.rng.random() < 0.5:
+        if True:
             for m in fixed:
                 rows.append({"op": "feed", "id": 1, "m": m})
                 rows.append({"op": "feed", "id": 2, "m": m, "tw": 1, "twp": "C17"})
